@@ -323,6 +323,15 @@ impl Gen {
                     continue;
                 }
                 let pred = self.gen_pred(tx, ti);
+                if self.p.has("delete_of_own_insert_in_open_txn") && (in_session.is_some() || self.in_batch) {
+                    // F5: recovery undoes an open transaction's insert+delete of one row in log order
+                    let hits_own = self.model.visible_rows(tx, ti).iter().any(|(ri, vals)| {
+                        self.model.tables[ti].rows[*ri].creator == tx && t.matches_pub(&pred, vals)
+                    });
+                    if hits_own {
+                        continue;
+                    }
+                }
                 Stmt::Delete { table: t.name.clone(), pred }
             } else {
                 if self.p.has("update_inside_open_or_overlapping_txn") && (in_session.is_some() || others_active) {
@@ -545,6 +554,9 @@ impl Gen {
         // warm-up: two committed transactions before any session begins (finding D26)
         let t0 = self.table_def();
         self.emit(Event::Auto(t0));
+        if self.p.has("uncheckpointed_create_with_open_txn") {
+            self.emit(Event::Flush);
+        }
         let tx = self.model.begin();
         let ts = self.visible_tables(tx);
         self.model.abort(tx);
@@ -628,6 +640,9 @@ impl Gen {
             } else if take!(self.p.w_check) {
                 self.emit(Event::Check);
             } else if take!(self.p.w_flush) {
+                if self.p.has("checkpoint_with_open_txn") && !self.sess.is_empty() {
+                    continue;
+                }
                 self.emit(Event::Flush);
             } else if take!(self.p.w_reopen) {
                 let c = cfg_for_reopen(&mut self.rng);
@@ -652,12 +667,20 @@ impl Gen {
                 }
                 let rel_ok = !self.p.has("more_than_3_relations") || self.relations_made < 3;
                 if rel_ok && (self.tables_made as usize) < self.p.max_tables as usize && (ts.len() < 2 || self.rng.chance(60)) {
+                    if self.p.has("uncheckpointed_create_with_open_txn") && (in_sess.is_some() || !self.sess.is_empty()) {
+                        continue;
+                    }
                     let s = self.table_def();
                     match in_sess {
                         Some(k) => self.emit(Event::Exec(k, s)),
-                        None => self.emit(Event::Auto(s)),
+                        None => {
+                            self.emit(Event::Auto(s));
+                            if self.p.has("uncheckpointed_create_with_open_txn") {
+                                self.emit(Event::Flush);
+                            }
+                        }
                     }
-                } else if ts.len() > 1 && self.rng.chance(50) {
+                } else if ts.len() > 1 && self.rng.chance(50) && !self.p.has("drop_table_before_crash") {
                     let ti = *self.rng.pick(&ts);
                     let name = self.model.tables[ti].name.clone();
                     // only drop a table no open session has touched
